@@ -36,6 +36,13 @@
  *  R <id> <params> <dictmode> <dicthex|-> <script> <srchex|-> <cap|0>
  *        the P command with a dictionary given to the context first (same result line, ds = dictSize seen by the copier)
  *  Q with a dictionary additionally prints u=<ok|diff|E..> : ZSTD_decompress_usingDict (history = dictionary content only)
+ *  (round 3)
+ *  X <id> <B> <nblocks> <seed> <depth> <codeLo> <codeHi> <density> <split> <tcbs> <validate>
+ *        block splitter / super-block writer driven by a producer (scenario family of C06's c06_r2, fix: 3960417 / 65eb70d): a raw-content
+ *        dictionary of 2^26 noise bytes, nblocks blocks of B bytes, each filled with up to B/3 three-byte matches whose offset codes
+ *        (codeLo..codeHi) differ between the halves of every index range (depth = levels of that tree; depth 9 = 39000 sequences in
+ *        256 leaves, aimed at ZSTD_MAX_NB_BLOCK_SPLITS); all answers are valid parses; dstCapacity = ZSTD_compressBound(n) exactly
+ *        -> <id> OK csize=<n> bound=<n> blocks=<wire blocks> raw=<raw blocks> calls=<producer calls> d=<ok|diff|E..>   |   <id> ERR <name> bound=<n>
  */
 #define ZSTD_STATIC_LINKING_ONLY
 #include "compress/zstd_compress.c"   /* only to read applied parameters / dictSize and for the unit-level U commands */
@@ -358,6 +365,100 @@ static void cmd_Z(char** t) {
     free(d); free(x1); free(x2); free(q1); free(q2); free(o1); free(o2); free(o3);
 }
 
+
+/* ---- round 3: adversarial (valid) producer against the block splitter ---- */
+#define XDICT_LOG 26
+typedef struct { unsigned pos, ml, off; } xrec;
+static unsigned char* x_all; static size_t x_dn; static xrec* x_recs; static size_t x_nrecs; static size_t x_calls;
+static unsigned long long x_rng;
+static unsigned xrnd(void) { x_rng = x_rng * 6364136223846793005ULL + 1442695040888963407ULL; return (unsigned)(x_rng >> 33); }
+static size_t xproducer(void* st, ZSTD_Sequence* out, size_t outCap, const void* src, size_t srcSize,
+                        const void* dict, size_t dictSize, int level, size_t windowSize) {
+    size_t const pos = (size_t)((const unsigned char*)src - (x_all + x_dn)); size_t lo = 0, hi = x_nrecs, k = 0, cur = pos;
+    (void)st; (void)dict; (void)dictSize; (void)level; (void)windowSize; x_calls++;
+    while (lo < hi) { size_t mid = (lo + hi) / 2; if (x_recs[mid].pos < pos) lo = mid + 1; else hi = mid; }
+    for (; lo < x_nrecs && x_recs[lo].pos + x_recs[lo].ml <= pos + srcSize; lo++) {
+        if (k + 1 >= outCap) return ZSTD_SEQUENCE_PRODUCER_ERROR;
+        out[k].offset = x_recs[lo].off; out[k].matchLength = x_recs[lo].ml; out[k].litLength = (unsigned)(x_recs[lo].pos - cur); out[k].rep = 0;
+        cur = x_recs[lo].pos + x_recs[lo].ml; k++; }
+    if (k >= outCap) return ZSTD_SEQUENCE_PRODUCER_ERROR;
+    out[k].offset = 0; out[k].matchLength = 0; out[k].litLength = (unsigned)(pos + srcSize - cur); out[k].rep = 0; k++;
+    return k;
+}
+static void cmd_X(char** t) {
+    const char* id = t[1]; size_t B = (size_t)strtoull(t[2], NULL, 10), nblocks = (size_t)strtoull(t[3], NULL, 10);
+    unsigned long long seed = strtoull(t[4], NULL, 10); int depth = atoi(t[5]), codeLo = atoi(t[6]), codeHi = atoi(t[7]), density = atoi(t[8]);
+    int split = atoi(t[9]), tcbs = atoi(t[10]), val = atoi(t[11]);
+    size_t n = B * nblocks, b, i, bound = ZSTD_compressBound(n), r; unsigned ncodes = (unsigned)(codeHi - codeLo + 1);
+    unsigned char* src; unsigned char* dst; ZSTD_CCtx* c;
+    if (n == 0 || n > (4u << 20) || codeLo < 2 || codeHi > 25 || codeHi < codeLo) { printf("%s BADCMD\n", id); return; }
+    if (!x_all) {
+        x_dn = (size_t)1 << XDICT_LOG; x_all = (unsigned char*)malloc(x_dn + (4u << 20) + 64); x_recs = (xrec*)malloc(((4u << 20) / 3 + 16) * sizeof(xrec));
+        x_rng = 424242ULL * 0x9E3779B97F4A7C15ULL + 0x1234567ULL;
+        for (i = 0; i < x_dn; i += 4) { unsigned const v = xrnd(); memcpy(x_all + i, &v, 4); }
+    }
+    src = x_all + x_dn; x_nrecs = 0; x_calls = 0;
+    x_rng = (seed * 7919 + 13) * 0x9E3779B97F4A7C15ULL + 0x1234567ULL;
+    for (b = 0; b < nblocks; b++) {
+        size_t const base = b * B; size_t pos = base; size_t const end = base + B; int const aimed = (depth == 9);
+        size_t const nseq = aimed ? 39000 : (B / 3) * (size_t)density / 100; size_t j; unsigned const leaves = aimed ? 256u : 1u << depth;
+        for (j = 0; j < nseq; j++) {
+            unsigned const leaf = (unsigned)(j * leaves / (nseq ? nseq : 1)); unsigned code, ml = 3, off, lo, hi; size_t G, k;
+            if (aimed) code = (j & 1) ? 18 + ((leaf >> 1) & 7) : 2 + (leaf >> 4);
+            else if (ncodes >= 4 && depth > 1) { unsigned const half = ncodes / 2;
+                code = (j & 1) ? (unsigned)codeLo + half + ((leaf >> 1) % (ncodes - half)) : (unsigned)codeLo + ((leaf >> (depth > 4 ? 4 : 1)) % half); }
+            else code = (unsigned)codeLo + (leaf % ncodes);
+            if (aimed) ml = (((leaf >> 1) < (unsigned)density) && (leaf & 1)) ? 4 : 3;
+            if (pos + ml > end) break;
+            G = x_dn + pos;
+            lo = (code <= 2) ? 1 : (1u << code) - 3; hi = (code <= 2) ? 4 : (2u << code) - 4;
+            off = lo + xrnd() % (hi - lo + 1);
+            if (off > G) off = (unsigned)G;
+            for (k = 0; k < ml; k++) x_all[G + k] = x_all[G + k - off];
+            x_recs[x_nrecs].pos = (unsigned)pos; x_recs[x_nrecs].ml = ml; x_recs[x_nrecs].off = off; x_nrecs++;
+            pos += ml;
+        }
+        for (; pos < end; pos++) src[pos] = (unsigned char)xrnd();
+    }
+    c = ZSTD_createCCtx(); dst = (unsigned char*)malloc(bound ? bound : 1);
+    ZSTD_CCtx_setParameter(c, ZSTD_c_compressionLevel, 1);
+    ZSTD_CCtx_setParameter(c, ZSTD_c_windowLog, XDICT_LOG + 1);
+    ZSTD_CCtx_setParameter(c, ZSTD_c_minMatch, 3);
+    if (B < (128u << 10)) ZSTD_CCtx_setParameter(c, ZSTD_c_maxBlockSize, (int)B);
+    if (split) ZSTD_CCtx_setParameter(c, ZSTD_c_useBlockSplitter, split == 1 ? ZSTD_ps_enable : ZSTD_ps_disable);
+    if (tcbs) ZSTD_CCtx_setParameter(c, ZSTD_c_targetCBlockSize, tcbs);
+    ZSTD_CCtx_setParameter(c, ZSTD_c_validateSequences, val);
+    ZSTD_registerSequenceProducer(c, NULL, xproducer);
+    r = ZSTD_CCtx_loadDictionary_advanced(c, x_all, x_dn, ZSTD_dlm_byRef, ZSTD_dct_rawContent);
+    if (!ZSTD_isError(r)) r = ZSTD_compress2(c, dst, bound, src, n);
+    if (ZSTD_isError(r)) { printf("%s ERR ", id); pename(r); printf(" bound=%lu calls=%lu\n", (unsigned long)bound, (unsigned long)x_calls); }
+    else {
+        size_t pos = ZSTD_frameHeaderSize(dst, r), blocks = 0, raw = 0, dr; unsigned char* out = (unsigned char*)malloc(n + 64); ZSTD_DCtx* d = ZSTD_createDCtx();
+        while (pos + 3 <= r) { unsigned const h = dst[pos] | (dst[pos + 1] << 8) | ((unsigned)dst[pos + 2] << 16); unsigned const ty = (h >> 1) & 3;
+            blocks++; if (ty == 0) raw++; pos += 3 + (ty == 1 ? 1 : (h >> 3)); if (h & 1) break; }
+        printf("%s OK csize=%lu bound=%lu blocks=%lu raw=%lu calls=%lu ", id, (unsigned long)r, (unsigned long)bound, (unsigned long)blocks, (unsigned long)raw, (unsigned long)x_calls);
+        ZSTD_DCtx_setParameter(d, ZSTD_d_windowLogMax, 31);
+        ZSTD_DCtx_loadDictionary_advanced(d, x_all, x_dn, ZSTD_dlm_byRef, ZSTD_dct_rawContent);
+        dr = ZSTD_decompressDCtx(d, out, n + 64, dst, r);
+        if (ZSTD_isError(dr)) { printf("d=E"); pename(dr); } else printf((dr != n || memcmp(out, src, n)) ? "d=diff" : "d=ok");
+#ifndef C17_NO_UNITS
+        /* unit level (as c06_r2): the split table of the block just handed over by the producer (its sequences are still in c->seqStore),
+           derived again into a table of our own whose entries from ZSTD_MAX_NB_BLOCK_SPLITS on are canaries */
+        if (nblocks == 1 && split == 1 && !tcbs) {
+            enum { EXTRA = 64 }; static U32 table[ZSTD_MAX_NB_BLOCK_SPLITS + EXTRA];
+            U32 const nbSeq = (U32)(c->seqStore.sequences - c->seqStore.sequencesStart); size_t ns, i2, over = 0;
+            for (i2 = 0; i2 < ZSTD_MAX_NB_BLOCK_SPLITS + EXTRA; i2++) table[i2] = 0xC0FFEE00u + (U32)i2;
+            ZSTD_reset_compressedBlockState(c->blockState.prevCBlock);
+            ns = ZSTD_deriveBlockSplits(c, table, nbSeq);
+            for (i2 = ZSTD_MAX_NB_BLOCK_SPLITS; i2 < ZSTD_MAX_NB_BLOCK_SPLITS + EXTRA; i2++) if (table[i2] != 0xC0FFEE00u + (U32)i2) over++;
+            printf(" nbseq=%u splits=%lu over=%lu limit=%d", nbSeq, (unsigned long)ns, (unsigned long)over, (int)ZSTD_MAX_NB_BLOCK_SPLITS);
+        }
+#endif
+        putchar('\n'); ZSTD_freeDCtx(d); free(out);
+    }
+    ZSTD_freeCCtx(c); free(dst);
+}
+
 #ifndef C17_NO_UNITS
 /* unit-level commands: direct calls of the static functions the property is anchored in
  *  U <id> v <wlog> <minMatch> <producer> <dictSize> <offBase> <ml> <posInSrc>   -> <id> 0|1   (1 = ZSTD_validateSequence accepts)
@@ -418,8 +519,8 @@ static void cmd_U(char** t, int nt) {
 int main(void) {
     char* line = NULL; size_t lcap = 0; ssize_t len;
     while ((len = getline(&line, &lcap, stdin)) > 0) {
-        char* t[12] = {0}; int nt = 0; char* sv = NULL; char* tok = strtok_r(line, " \n", &sv);
-        while (tok && nt < 12) { t[nt++] = tok; tok = strtok_r(NULL, " \n", &sv); }
+        char* t[14] = {0}; int nt = 0; char* sv = NULL; char* tok = strtok_r(line, " \n", &sv);
+        while (tok && nt < 14) { t[nt++] = tok; tok = strtok_r(NULL, " \n", &sv); }
         if (nt == 0) continue;
         if (t[0][0] == 'Q' && nt >= 8) cmd_Q(t);
         else if (t[0][0] == 'G' && nt >= 8) cmd_G(t);
@@ -431,6 +532,7 @@ int main(void) {
         else if (t[0][0] == 'D' && nt >= 5) cmd_D(t);
         else if (t[0][0] == 'K' && nt >= 4) cmd_K(t);
         else if (t[0][0] == 'Z' && nt >= 9) cmd_Z(t);
+        else if (t[0][0] == 'X' && nt >= 12) cmd_X(t);
 #ifndef C17_NO_UNITS
         else if (t[0][0] == 'U' && nt >= 4) cmd_U(t, nt);
 #endif
